@@ -4,6 +4,7 @@ CONSTANTS
   Lens <- LensQ
   Depth = 1
   MaxN = 3
+  BigTN <- BigQ
   Modes <- ModesAll
   Deviations <- NoDev
   Emit = TRUE
